@@ -235,10 +235,46 @@ def c10_wakeups(spec, rec):
     rng = rng_for(spec['seed'], 'semwake')
     for case in range(spec['cases']):
         size = rng.choice([1, 2, 3])
-        how = rng.choice(['grow', 'release'])
+        how = rng.choice(['grow', 'release', 'shrink_full'])
         sem = LaxBoundedSemaphore(size)
         for _ in range(size):
             sem.acquire()
+        if how == 'shrink_full':
+            # shrink while every slot is taken: the pool gets smaller as soon
+            # as a slot comes back; nobody may be served in the meantime
+            size = size + 1
+            sem.grow()
+            sem.acquire()
+            attrs = {'lane': 'l0', 'mode': 'shrink_while_full'}
+            th = threading.Thread(target=sem.shrink, daemon=True)
+            th.start()
+            time.sleep(rng.choice([0.0, 0.005, 0.03]))
+            rec.case()
+            rec.count('l0:shrink_while_full')
+            extra = 0
+            while extra < 20 and sem.acquire(False):
+                extra += 1
+            if extra:
+                rec.violation('slot_granted_while_all_taken', attrs, size=size, granted=extra,
+                              state=list(sem_read(sem)))
+                continue
+            sem.release()
+            th.join(15)
+            if th.is_alive():
+                rec.violation('shrink_never_completed_after_release', attrs, size=size)
+                continue
+            if sem.acquire(False):
+                rec.violation('slot_granted_while_all_taken', dict(attrs, after='shrink'), size=size,
+                              state=list(sem_read(sem)))
+                continue
+            for _ in range(size - 1):
+                sem.release()
+            rv, rb = sem_read(sem)
+            if (rv, rb) != (size - 1, size - 1):
+                rec.violation('semaphore_differs_from_model', attrs, value=rv, bound=rb,
+                              model_value=size - 1, model_bound=size - 1)
+            rec.sig(['semshrinkfull', size])
+            continue
         got = {}
         started = threading.Event()
 
